@@ -204,6 +204,40 @@ func (o *AccountingOracle) check(r *Run, ssn *framework.Session, at string) {
 		}
 		r.Fail("C14", rule, "at %s: %s", at, fmt.Sprintf(format, args...))
 	}
+	// ---------- claimed devices (DRA) ----------
+	if r.S.World.HasDRA() {
+		if os.Getenv("KAISIM_DEBUG_DRA") != "" {
+			fmt.Printf("DRA-CHECK cycle=%d at=%s\n%s", r.cycle, at, dumpDRA(ssn))
+		}
+		lost, ghost, double := draTrackerMismatch(ssn)
+		r.Probe("c14_dra_device_sets_checked")
+		if len(double) > 0 {
+			r.draDouble = true
+			fail("dra_device_double_allocated", "in the scheduler's own claim cache one device is allocated to two claims: %v", double)
+		}
+		sfx := ""
+		if r.draDouble {
+			sfx = "_after_double_allocation"
+		}
+		if len(lost)+len(ghost) > 0 {
+			r.draInconsistent = true
+		}
+		if len(lost) > 0 {
+			fail("dra_device_lost"+sfx, "the scheduler's set of allocated devices misses %v although its own claim cache holds claims allocated on them: the devices look free", lost)
+		}
+		if len(ghost) > 0 {
+			fail("dra_device_ghost"+sfx, "the scheduler's set of allocated devices contains %v which no claim in its cache (nor an in-flight allocation) holds", ghost)
+		}
+	}
+	// claims no decision of this cycle touched: what the scheduler believes about them at an action boundary (every
+	// what-if statement is closed) must be what the API says
+	if r.S.World.HasDRA() && (strings.HasPrefix(at, "after-") || at == "session-open") {
+		// observation only (not understood well enough on the unchanged tree to be an oracle): counted, never failing
+		if n := len(draViewVsAPI(r, ssn)); n > 0 {
+			r.Probe("c14_dra_untouched_claim_view_differs_from_api_observed")
+		}
+		r.Probe("c14_dra_view_vs_api_checked")
+	}
 	// ---------- nodes ----------
 	nodeNames := make([]string, 0, len(ssn.ClusterInfo.Nodes))
 	for n := range ssn.ClusterInfo.Nodes {
